@@ -793,16 +793,23 @@ ROUTER_TRUST = COMMON_TRUST + [
 PROPS["C01"] = {
     "technique": "Lean 4 theorems over the route-tree model (all route sets, orders, paths) + differential correspondence "
                  "of Flame.ServeHTTP and route.Tree.Match with the model",
-    "level_text": "Dispatch is modelled executably (registration with rank insertion, backtracking matcher, router layer); "
-                  "theorems are over all route sets/registration orders/paths; the model is tied to tree.go/leaf.go/router.go by "
-                  "a differential check on random and small-scope-exhaustive route sets at both the Flame and the Tree level.",
+    "level_text": "Tree-free characterisation proved for every history of registrations (any order, accepted or rejected, routes as "
+                  "the parser produces them — that guard is itself a theorem for parsed texts), every regex engine, header predicate and "
+                  "path: dispatch_iff (dispatched ⇔ some accepted route's long/short form admits the segments), backtracking_complete, "
+                  "dispatch_sound, dispatch_first/dispatch_least (the winner is the head of the priority enumeration: children in list "
+                  "order, a match-all child taking 1,2,3… segments, the match-all leaf last), sibling_order_fifo + tree_invariant (lists "
+                  "sorted by rank, first come first served within a rank), rank_documented (regenerated iota order), and "
+                  "serve_dispatch_iff at Router.ServeHTTP level (fast path included). The model is tied to tree.go/leaf.go/router.go by a "
+                  "differential check on random, wide (13–24 alternatives under one node) and small-scope-exhaustive route sets at Flame "
+                  "and Tree level; route texts are parsed by the verified model parser.",
     "level_note": "Trusted: Lean kernel; hand-written model tied by differential testing; regexp is a parameter.",
     "props_modules": ["Flamego.Props.C01", "Flamego.Props.C01Router", "Flamego.Proofs.TreeMatch", "Flamego.Proofs.TreeAdd", "Flamego.Proofs.ParsedOfWF", "Flamego.Proofs.RouterBuild"],
     "suite": "C01",
     "compare": lambda s, R, M: rp.cmp_dispatch(s, R, M),
-    "stats": rp.router_stats(lambda op, r, m, n: r.startswith("h ") and n >= 2,
+    "stats": rp.router_stats(lambda op, r, m, n: r.startswith("h ") and (" alts=" not in m or int(m.rsplit(" alts=", 1)[1]) >= 2),
         "case = (registered route set, request); distinct by route texts + request line; non-trivial = the request was "
-        "dispatched to a handler while at least two routes were registered"),
+        "dispatched AND had at least two accepting walks in its method tree (so priority, not mere admission, decided the "
+        "winner; counted by the model driver as the length of `derivs`, see distribution alts_*); TREQ/IREQ lines count when dispatched"),
     "known_match": no_known,
     "trusted_base": ROUTER_TRUST,
     "assumptions": ["regexp.FindStringSubmatch / MatchString are deterministic functions of (pattern, input)"],
@@ -845,6 +852,17 @@ _router_entry("C07",
     lambda s, R, M: rp.cmp_dispatch(s, R, M, chains=True),
     lambda op, r, m, n: True,
     "case = (route set, request); every distinct case counts (the quantifier is 'any request whatsoever'); distribution shows raw-byte paths and odd methods")
+PROPS["C07"]["props_modules"] = ["Flamego.Props.C07", "Flamego.Props.C07App", "Flamego.Proofs.App"]
+PROPS["C07"]["technique"] += ("; plus an end-to-end model of one request through a whole application (Model/App: Before hooks, "
+    "router, createContext, handler chain) with theorems tying C01/C03/C10 together at Flame.ServeHTTP, and `NEW app` sessions "
+    "against a real flamego instance")
+PROPS["C07"]["level_text"] += (" Application level (Props/C07App): App.serve composes the router model, the chain machine and "
+    "the writer exactly as Flame.ServeHTTP / createContext do; app_one_chain, app_before_stops, app_chain_of_chosen_route "
+    "(via C01.serve_dispatch_iff), app_shortcut_invisible (via C10.shortcut_unobservable), app_unknown_method (unguarded), "
+    "app_serve_frame and the C03 / C15 transfer lemmas are over all applications and requests. `NEW app` sessions build a real Flame with Before "
+    "hooks, middleware, routes with handler lists and header constraints, an action and default / user-supplied not-found "
+    "chains, change it between requests, serve every request twice, and compare hooks run, the chain's events (with the "
+    "parameters each handler saw), the client's writer and escaped panics by plain equality.")
 _router_entry("C08",
     "Lean 4 theorems over addRoute (rejections and acceptance) + differential correspondence of registration verdicts (panic / no panic) and subsequent reachability",
     "Registration is modelled with every rejection of tree.go/leaf.go/router.go; the correspondence compares ok/err of every "
@@ -884,6 +902,25 @@ _router_entry("C12",
     "case = (route set, URL-building call or dispatched request); counted when a URL was built",
     extra_trust=["parameter: strings.Replacer (modelled as leftmost, first-listed-key replacement and differentially checked); "
                  "bind names are brace-free in generated cases because Go's map order makes colliding keys non-deterministic"])
+
+PROPS["C02"]["level_text"] = ("Parameters are modelled exactly as the matcher threads them (values left by abandoned branches included). Proved for all "
+    "trees registration can build, engines and paths: params_of_winner (every bind of the winning walk is delivered with the value that walk "
+    "captured; stale values never shadow it — from build_bindsDistinct), decoded_once, placeholder_one_segment / placeholder_no_slash, "
+    "matchall_span, route_param_canonical, serve_fast_params, roundtrip_partial / dispatch_roundtrip (regex-free routes, long and short form) "
+    "and, under the hypothesis structure EngineLaws (never postulated; monitored at run time by the harness), regex_values_match and "
+    "roundtrip_full_holds. The correspondence compares, for every dispatched request, the values of the winning form's binds, `route`, and the "
+    "URL rebuilt from them, at Flame and Tree level.")
+PROPS["C08"]["level_text"] = ("register_ok_iff: for every tree registration can build and every parsed route, addRoute succeeds ⇔ ValidNew (a declarative "
+    "spec listing the statement's clauses: no optional/empty inner segment, every segment classifies, binds pairwise distinct along the route, "
+    "at most one inner match-all, no second match-all at a position, no leaf with the same text — optional mark aside — for the long and the "
+    "short form); one rejection corollary per clause; accepted_reachable (an accepted route's own instances are dispatched, to it or to an "
+    "earlier-priority route); grammar_rejected / unknown_method_rejected at router level; failed registrations change nothing. The "
+    "correspondence compares ok/err of every registration in random valid+invalid histories (panics recovered) and then dispatch.")
+PROPS["C09"]["level_text"] = ("chosen_satisfies_constraints (whatever is chosen satisfies its own constraints — static or dynamic route, long or short "
+    "form, any method), constraints_filter_priority_order (the winner under constraints is the first walk of the unconstrained priority "
+    "order whose constraints hold: failing routes are skipped, nothing else moves), headers_replace, constraints_iff, "
+    "headers_evict_shortcut, over all histories/engines/requests; the correspondence interleaves Headers() calls (re-specified, mixed-case "
+    "method lists, several methods) with header-carrying requests.")
 
 # obligations about the constants regenerated from the source (translator/constfacts*.go → Gen/ConstFacts.lean)
 for _pid in ("C02", "C08", "C11", "C12", "C13", "C14", "C15", "C16", "C17", "C18"):
